@@ -218,14 +218,30 @@ func analyse(sc Scenario, out *outcome, drv *lib.Driver) *caseResult {
 				cr.hits["commit:reverted-genesis"]++
 			}
 			cur := out.chains[epoch]
-			if int(e.Num) < len(cur) && cur[e.Num].Block.Hash.Equal(&e.Hash) && !wrongNumAnswered(out.log, id, e.Num, id.of(&e.Hash)) {
-				if staleSuccessor(out.log[:li], e) {
+			if int(e.Num) < len(cur) && cur[e.Num].Block.Hash.Equal(&e.Hash) {
+				// the source's chain holds this block: why was it reverted? (the cause decides the
+				// signature; anything not explained by exactly one documented cause stays generic)
+				switch cause, detail := revertCause(out.log[:li], e); cause {
+				case "stale-successor":
 					cr.hits["revert:on-successor-fetched-before-reorg"]++
 					viol("reverted-live-block-on-successor-fetched-before-the-reorg", fmt.Sprintf(
 						"block %d, which the source holds (epoch %d), was reverted: block %d of the source's PREVIOUS chain, fetched before the reorg, "+
 							"arrived after block %d of the new chain had been stored; storeTask answers ErrParentDoesNotMatchHead with revertTask(number-2), which reverts the head without asking",
 						e.Num, epoch, e.Num+1, e.Num))
-				} else {
+				case "hash-altered-answer":
+					cr.hits["revert:on-hash-altered-answer"]++
+					viol("reverted-live-block-on-hash-altered-answer-to-revertTask", fmt.Sprintf(
+						"block %d, which the source holds, was reverted because revertTask's BlockByNumber(%d) was answered with a block whose Hash field is altered (%s); "+
+							"revertTask compares the hash of the answer without verifying it (the same answer is refused by SanityCheckNewHeight on the store path)", e.Num, e.Num, detail))
+				case "lying-latest-header":
+					cr.hits["revert:on-lying-latest-header"]++
+					viol("reverted-live-block-on-unverifiable-latest-header", fmt.Sprintf(
+						"block %d, which the source holds, was reverted without asking for it: isReverting trusted a BlockHeaderLatest answer (%s) that is not a header of the source's chain "+
+							"and returned remoteHeight-1, so revertTask reverted every block from that height up", e.Num, detail))
+				case "wrong-number-answer":
+					viol("revert-decided-on-answer-with-wrong-block-number", fmt.Sprintf(
+						"block %d, which the source holds, was reverted because BlockByNumber(%d) was answered with a block of another number (%s)", e.Num, e.Num, detail))
+				default:
 					viol("reverted-a-block-the-source-still-has", fmt.Sprintf("block %d was reverted while the source's chain (epoch %d) holds it", e.Num, epoch))
 				}
 			}
@@ -532,6 +548,64 @@ func syncGoroutines() string {
 	}
 }
 
+// revertCause explains the revert x of a block the source holds, from the log before it:
+//   - the last request for x's height since the previous commit decided it, if there is one:
+//     answered with an altered hash -> "hash-altered-answer", with another number -> "wrong-number-answer";
+//   - otherwise the revert was done without asking; what started the revert task: the last
+//     BlockHeaderLatest answer before the run of reverts, if it is a lie -> "lying-latest-header";
+//     a successor block of an earlier chain -> "stale-successor".
+func revertCause(before []entry, x entry) (string, string) {
+	// the run of reverts x belongs to starts after the last store / restart
+	runStart := 0
+	prevCommit := 0
+	for i := len(before) - 1; i >= 0; i-- {
+		k := before[i].Kind
+		if (k == eStored || k == eReverted || k == eJump) && prevCommit == 0 {
+			prevCommit = i + 1
+		}
+		if k == eStored || k == eRestart || k == eJump {
+			runStart = i + 1
+			break
+		}
+	}
+	for i := len(before) - 1; i >= prevCommit; i-- {
+		e := before[i]
+		if (e.Kind == eServed || e.Kind == eServeErr) && e.Req == x.Num {
+			if e.Kind == eServed && strings.HasPrefix(e.Fault, "corrupt:hash") {
+				return "hash-altered-answer", e.Fault
+			}
+			if e.Kind == eServed && e.Num != e.Req && !strings.HasPrefix(e.Fault, "corrupt:") {
+				return "wrong-number-answer", fmt.Sprintf("block %d", e.Num)
+			}
+			return "", ""
+		}
+	}
+	// no request for this height: what started the task? look before the first revert of the run
+	firstRevert := len(before)
+	for i := runStart; i < len(before); i++ {
+		if before[i].Kind == eReverted {
+			firstRevert = i
+			break
+		}
+	}
+	for i := firstRevert - 1; i >= 0 && i >= runStart-400; i-- {
+		e := before[i]
+		if e.Kind == eLatest {
+			if (e.Fault == "fabricated" || e.Fault == "prev-epoch") && e.Num <= x.Num {
+				return "lying-latest-header", fmt.Sprintf("number %d, %s", e.Num, e.Fault)
+			}
+			break
+		}
+		if e.Kind == eStored || e.Kind == eRestart {
+			break
+		}
+	}
+	if staleSuccessor(before, x) {
+		return "stale-successor", ""
+	}
+	return "", ""
+}
+
 // staleSuccessor: the reverted block x was first served in some epoch E; a valid block numbered
 // x.num+1 whose parent is not x was served in an epoch before E (it belongs to a chain the source
 // had before x existed).
@@ -631,6 +705,26 @@ func wrongNumScenario(seed uint64, dstNew bool) Scenario {
 		Faults: Faults{Rules: []Rule{{Height: uint64(c - 1), Epoch: 1, Action: "wrong-num", Times: 1}}}}
 }
 
+// lieScenario: node and source hold the SAME chain and the source never changes it. One
+// BlockHeaderLatest answer carries a fabricated hash at height k (withBlock: and the answer to the
+// request for block k-1 / 0 has an altered Hash field).
+func lieScenario(seed uint64, dstNew, withBlock bool) Scenario {
+	r := lib.NewRNG(seed)
+	a := r.Range(3, 6)
+	k := r.Intn(a)
+	sc := Scenario{Kind: "lie", Seed: seed, SrcNew: seed%2 == 1, DstNew: dstNew, Procs: lib.Pick(r, []int{1, 2, 0}), Prestore: a, StartEpoch: 0,
+		Epochs: []EpochSpec{{Add: a}},
+		Faults: Faults{Rules: []Rule{{Height: uint64(k), Epoch: 0, Action: "latest-fabricated", Times: 1}}}}
+	if withBlock {
+		below := uint64(0)
+		if k > 0 {
+			below = uint64(k - 1)
+		}
+		sc.Faults.Rules = append(sc.Faults.Rules, Rule{Height: below, Epoch: 0, Action: "hash-altered", Times: 1})
+	}
+	return sc
+}
+
 func dynamicScenario(r *lib.RNG, i int) Scenario {
 	sc := Scenario{Kind: "dynamic", Seed: r.Uint64() >> 1, SrcNew: r.Bool(), DstNew: r.Bool()}
 	n0 := r.Range(1, 12)
@@ -686,6 +780,9 @@ func dynamicScenario(r *lib.RNG, i int) Scenario {
 		sc.Faults = Faults{ErrPct: 20, DelayPct: 30, MaxDelayUs: 500, Budget: 3}
 	default:
 		sc.Faults = Faults{ErrPct: 15, DelayPct: 25, MaxDelayUs: 800, CorruptPct: 15, WrongNumPct: 8, StalePct: 30, Budget: 3}
+		if i%2 == 0 {
+			sc.Faults.LieLatestPct, sc.Faults.LieHashPct = 10, 8
+		}
 	}
 	sc.Plugin = i%4 == 1
 	sc.Poll = i%5 == 3
@@ -755,6 +852,7 @@ func main() {
 		for i := 0; i < f.Scale(4, 40); i++ {
 			scs = append(scs, raceScenario(f.Seed*77+uint64(i), i%2 == 0))
 			scs = append(scs, wrongNumScenario(f.Seed*79+uint64(i), i%2 == 1))
+			scs = append(scs, lieScenario(f.Seed*83+uint64(i), i%2 == 0, i%2 == 1))
 		}
 	}
 	// group by GOMAXPROCS (a process-wide setting)
